@@ -182,10 +182,63 @@ def stale_lock_check(var: Path) -> bool:
     return st.body_entered[0]
 
 
+def loser_run_check(rep, rng, top: Path, k: int) -> bool:
+    """A complete APTMirror.run() while another open file description holds the lock: the instance must
+    exit non-zero and must not create, modify or remove anything below base_path (the lock file itself
+    excepted, which the protocol opens for writing).  Run once on a fresh base_path (nothing exists yet
+    for its repositories) and once on an already populated one."""
+    import fcntl
+    from . import pipeline as P
+    found = False
+    scn = P.gen_scenario(rng, nrepos=rng.choice([1, 2]))
+    base = top / f"loser{k}"
+    populated = k % 2 == 1
+    if populated:
+        r0 = P.run_tool(scn, base)
+        if r0.code != 0:
+            return False
+        scn = P.Scenario(scn.repos + P.gen_scenario(rng, nrepos=3).repos[2:], nthreads=scn.nthreads)  # a repository never seen before
+    else:
+        base.mkdir(parents=True)
+        (base / "var").mkdir()
+    lockfile = base / "var" / "apt-mirror.lock"
+    holder = open(lockfile, "ab")
+    fcntl.flock(holder, fcntl.LOCK_EX | fcntl.LOCK_NB)
+    try:
+        before = P.tree_listing(base)
+        res = P.run_tool(scn, base, trace=True)
+        after = P.tree_listing(base)
+    finally:
+        holder.close()
+    skip = {"mirror.list", "auth.conf", "var/apt-mirror.lock"}
+    touched = sorted({os.path.relpath(p, base) for kind, paths, *_ in [(e[0], e[1]) for e in res.events]
+                      for p in paths if str(p).startswith(str(base))} - skip)
+    # the harness itself writes mirror.list/auth.conf and Config.create_working_directories() makes the top-level
+    # directories before APTMirror exists: only what happens below them counts
+    touched = [t for t in touched if t not in ("skel", "mirror", "var") and not t.startswith("..")]
+    diff = sorted(p for p in set(before) | set(after) if before.get(p) != after.get(p) and p not in skip
+                  and p not in ("skel", "mirror", "var"))
+    rep.case(("loser_run", populated, res.code, len(scn.repos)), sample={"populated": populated, "exit": res.code, "touched": touched[:5]})
+    rep.count("loser_run")
+    jc = {"kind": "loser_run", "populated": populated, "repos": scn.repos}
+    if res.code == 0:
+        found = True
+        rep.violation("an instance started while the lock is held exits 0",
+                      {"kind": "oracle", "tie": "loser_run", "case": jc}, tags={"oracle": "loser_exit"})
+    if touched or diff:
+        found = True
+        rep.violation(f"an instance that does not obtain the lock modifies the mirror/skel/var trees: "
+                      f"mutations {touched[:4]}, changed entries {diff[:4]}",
+                      {"kind": "oracle", "tie": "loser_run", "case": jc}, tags={"oracle": "loser_touches_tree"})
+    shutil.rmtree(base, ignore_errors=True)
+    return found
+
+
 def run(rep: C.Report):
     rep.rule = ("every interleaving of the gated protocol steps (open, flock, leave+close, unlink if any) of 2 "
                 "processes, sampled interleavings of 3 (incl. the late-opener pattern), one real "
-                "fork+SIGKILL stale-lock run; distinct by performed (pid, action, outcome) sequence")
+                "fork+SIGKILL stale-lock run; complete APTMirror.run() calls while the lock is held elsewhere "
+                "(fresh and populated base_path); distinct by performed (pid, action, outcome) sequence")
     rep.assumptions += ["flock(2) semantics and kernel release of locks at process death are the OS's; threads "
                         "stand for processes because flock is per open file description",
                         "close() is not an audit event: leaving the body and closing the descriptor are one step"]
@@ -233,6 +286,8 @@ def run(rep: C.Report):
                              ctuple("true" if unlink_seen else "false", tr),
                              ctuple(clist(cnat(o) for _, _, o in perf), cnat(st.max_inside))))
                 shutil.rmtree(var, ignore_errors=True)
+        for i in range(4 if rep.tier == "quick" else 60):
+            found |= loser_run_check(rep, rng, top, i)
         var = top / "stale"
         var.mkdir()
         ok = stale_lock_check(var)
@@ -256,6 +311,16 @@ def replay(rep: C.Report, path: str):
     top = Path(os.path.realpath(tempfile.mkdtemp(prefix="vsb_c13_")))
     try:
         c = j["case"]
+        if c.get("kind") == "loser_run":
+            rng = random.Random(j.get("seed", 0) + 13)
+            for sched in schedules(2, 4, rng, 0):
+                pass
+            for sched in schedules(3, 4, rng, 200):
+                pass
+            for i in range(4):
+                loser_run_check(rep, rng, top, i)
+            print("replayed the loser runs; violations", rep.violations)
+            return
         st = Stepper(top, c["n"])
         perf = st.run(c["schedule"])
         print("performed:", perf, "max inside:", st.max_inside)
